@@ -55,6 +55,14 @@ def r1_sql_scoping(ctx):
                 else:
                     r.violation(key, st.where(), "INSERT into an event table does not name the owner column: " + st.describe(), work=len(st.clauses))
                 continue
+            # commit hashes are not unique inside a log (byte-identical events):
+            # a DELETE/UPDATE selected by commit_hash must pin one row by event_id
+            outer = re.sub(r"\(\s*SELECT\b.*", "", where_txt, flags=re.S | re.I)
+            if st.kind in ("Delete", "Update") and re.search(r"\bcommit_hash\b", outer) and not scoped_pk:
+                r.violation(key + "|by-hash", st.where(),
+                            "%s on an event table selects rows by commit_hash alone (no event_id): every byte-identical event of the log is affected, so rewinding past one copy also removes the earlier ones" % st.kind.upper(),
+                            work=len(st.clauses))
+                continue
             # sub-selects on an event table must be scoped to the owner as well
             sub_bad = None
             for m in re.finditer(r"\(\s*SELECT\b", where_txt, re.I):
@@ -214,6 +222,19 @@ def r2_tree_follows_storage(ctx):
                             r.ok(k, cfg.loc(bb, i), "tree cut length derives from %s (no forward hash search)" % sorted({last_seg(n) for n in names})[:6], work=len(sl.nodes))
             if not n_tr:
                 r.ok(key + "|tree-cut-length", cfg.loc(body), "no Vec::truncate of the leaves here (tree rebuilt another way)", work=1)
+            # the pruned records are removed one by one: a set of their hashes
+            # forgets how many copies of a byte-identical event were pruned
+            for bb in fn.bodies:
+                for i, t in idioms.real_calls(bb, cfg.live_blocks(bb)):
+                    if cname(t) != "collect":
+                        continue
+                    tys = " ".join(t.get("targs") or []) + " " + (t.get("callee_full") or "")
+                    if re.search(r"(HashSet|BTreeSet|HashMap|BTreeMap|IndexSet)<", tys):
+                        sl = fg.back_from_operand(bb, t["args"][0])
+                        if any(re.search(r"EventRecord::commit$", ct.get("callee") or "") for _b, _i, ct in sl.calls):
+                            r.violation(key + "|pruned-as-set", cfg.loc(bb, i),
+                                        "rewind collects the hashes of the pruned records into a set: when the pruned tail holds the same event twice only one stored row is removed while the tree loses both leaves",
+                                        work=len(sl.nodes))
         # hashes appended come from record.commit()
         if not is_rewind:
             fg = FlowGraph(ws, fn)
@@ -393,6 +414,50 @@ def r5_backend_dispatch(ctx):
 _mn = {}
 
 
+FSLOG = "sos_filesystem::event_log::FileSystemEventLog"
+
+
+def r6_header_is_identity_plus_version(ctx):
+    """The header of a log file is the identity bytes plus, for account /
+    device / file logs, a 2-byte encoding version. Every method that sizes or
+    writes the header from `self.identity` must take `self.version` into
+    account (directly or through a helper such as header_len)."""
+    ws = ctx.ws
+    r = ctx.rule("C06-R6", "whatever sizes or rewrites the file header from the identity bytes also accounts for the encoding version",
+                 floor=3, kind="K5 field coverage over method summaries")
+    ms = {root: fn for root, fn in ws.fns.items() if ("FileSystemEventLog<" in root or "FileSystemEventLog::<" in root) and "{closure" not in root}
+    memo = {}
+
+    def trans(root, stack=()):
+        if root in memo:
+            return memo[root]
+        if root in stack:
+            return set()
+        rd, _wr = idioms.fields_touched(ws, ms[root], FSLOG)
+        out = set(rd)
+        for _b, _i, t in ms[root].calls():
+            c = t.get("resolved") or t.get("callee") or ""
+            if c in ms and c != root:
+                out |= trans(c, stack + (root,))
+        memo[root] = out
+        return out
+    n = 0
+    for root in sorted(ms):
+        rd, _wr = idioms.fields_touched(ws, ms[root], FSLOG)
+        if "identity" not in rd:
+            continue
+        n += 1
+        k = root + "|header"
+        if "version" in trans(root):
+            r.ok(k, cfg.loc(ms[root].main), "uses identity together with version", work=len(memo))
+        else:
+            r.violation(k, cfg.loc(ms[root].main),
+                        "%s uses the identity bytes to size or write the file header but never looks at the encoding version: account, device and file logs carry 2 more header bytes, so their rows are written/read at the wrong offset afterwards" % idioms.last_seg(root),
+                        work=len(memo))
+    if n < 2:
+        r.anchor_missing("FileSystemEventLog methods reading `identity` (found %d)" % n)
+
+
 def METHOD_NAMES(ws):
     if "v" not in _mn:
         tr = ws.traits.get(EVENTLOG)
@@ -417,6 +482,7 @@ def run(ctx):
     r3_commit_is_hash_of_bytes(ctx)
     r4_no_mut_tree_api(ctx)
     r5_backend_dispatch(ctx)
+    r6_header_is_identity_plus_version(ctx)
     if ctx.tier == "thorough" and ctx.config == "workspace":
         from .. import witness
         witness.run(ctx, 'C06-W', 'the commit tree cannot be mutated through the public EventLog API', {'TreeIsReadOnly': '`log.tree().commit()` through &L'})
